@@ -42,6 +42,17 @@ theorem sendCoinsUnrestricted_ok {tier : Denom → Bool} {s s' : State} {f t : A
     (h : WF tier s) (hr : sendCoinsUnrestricted tier s f t amt = (s', none)) : Neutral tier s s' :=
   sendCore_ok h hr
 
+theorem deductFees_ok {tier : Denom → Bool} {s s' : State} {a c : Addr} {fees : Coins}
+    (h : WF tier s) (hr : deductFees tier s a c fees = (s', none)) : Neutral tier s s' := by
+  unfold deductFees at hr
+  split at hr
+  · simp at hr
+  · split at hr
+    · simp at hr
+    · split at hr
+      · simp at hr
+      · exact sendCoinsUnrestricted_ok h hr
+
 theorem subInputs_ok {tier : Denom → Bool} {s s' : State} {ins : List (Addr × Coins)}
     (h : WF tier s) (hr : subInputs tier s ins = (s', none)) :
     WF tier s' ∧ s'.supply = s.supply ∧ (∀ d, total s' d = total s d - sideSum ins d) := by
@@ -303,6 +314,7 @@ theorem rawStep_ok_neutral {tier : Denom → Bool} {s s' : State} {op : Op} (h :
   cases op with
   | send f t amt => exact sendCoins_ok h hr
   | sendU f t amt => exact sendCoinsUnrestricted_ok h hr
+  | fee a c fees => exact deductFees_ok h hr
   | multi ins outs => exact inputOutput_ok h hr
   | mint a amt => simp [Op.isMintBurn] at hmb
   | burn a amt => simp [Op.isMintBurn] at hmb
